@@ -4,6 +4,7 @@ package tagexpr
 
 import (
 	"math"
+	"unsafe"
 
 	zz "github.com/cloudwego/hertz/internal/zzverif"
 )
@@ -193,5 +194,154 @@ func ZZ_C20_H1() {
 	} else {
 		f, ok := got.(float64)
 		zz.Assert("numeric-value-matches-documented-precedence", ok && (f == want.f || (math.IsNaN(f) && math.IsNaN(want.f))))
+	}
+}
+
+// ZZ_C20_H2: precedence inside the arguments of the built-in functions. The first argument of
+// in(...) is a chain of k operators over the number set; the remaining argument is a literal.
+// in(chain, c) must be true exactly when the chain, evaluated with the documented precedence,
+// equals c; len('...') of a literal string takes part in arithmetic as a number.
+func ZZ_C20_H2() {
+	k := zz.Range("operators", 1, zz.Param("K", 2))
+	var ops, nums []int
+	for i := 0; i <= k; i++ {
+		nums = append(nums, zz.Choose("operand", 5))
+		if i < k {
+			ops = append(ops, zz.Choose("operator", 5)) // arithmetic only: * / % + -
+		}
+	}
+	useLen := zz.Choose("lenOperand", 2) == 1 // spell the first operand as len('..') of that many bytes
+	neg := zz.Choose("negated", 2) == 1
+	chain := ""
+	vals := make([]zzVal, k+1)
+	for i := 0; i <= k; i++ {
+		vals[i] = zzVal{f: zzNumVals[nums[i]]}
+		if i == 0 && useLen {
+			chain += "len('" + "abcdefg"[:int(zzNumVals[nums[i]])] + "')"
+		} else {
+			chain += zzNums[nums[i]]
+		}
+		if i < k {
+			chain += " " + zzOps[ops[i]] + " "
+		}
+	}
+	want, _ := zzRefEval(vals, ops, 0, k, 1)
+	zz.Assume(!want.bad && !math.IsNaN(want.f) && !math.IsInf(want.f, 0))
+	// the literal to look for: the reference value itself or a different number
+	target := want.f
+	if zz.Choose("miss", 2) == 1 {
+		target = want.f + 1
+	}
+	zz.Assume(target >= 0 && target < 1000 && target == float64(int64(target)))
+	expr := "in(" + chain + ", " + zzFmtInt(int(target)) + ")"
+	if neg {
+		expr = "!" + expr
+	}
+	e, err := parseExpr(expr)
+	zz.Cover("reached-assert", true)
+	zz.Assert("parses", err == nil)
+	if err != nil {
+		return
+	}
+	got, ok := e.run("", nil).(bool)
+	wantB := (target == want.f) != neg
+	zz.Cover("found", target == want.f)
+	zz.Assert("function-argument-evaluated-with-documented-precedence", ok && got == wantB)
+}
+
+func zzFmtInt(n int) string {
+	if n == 0 {
+		return "0"
+	}
+	var b []byte
+	for n > 0 {
+		b = append([]byte{byte('0' + n%10)}, b...)
+		n /= 10
+	}
+	return string(b)
+}
+
+// ZZ_C20_H3: field references. The current field's value is injected through the interpreter's
+// own field table (no reflection): nil, numbers, booleans, strings. Expressions combine the
+// reference - plain, negated (!$) or doubly negated (!!$) - with a boolean literal through
+// && || == != in either operand order. The documented truthiness rule (a value is true unless it
+// is 0, ” or nil) fixes the result; evaluation must not panic for any field value.
+func ZZ_C20_H3() {
+	vi := zz.Choose("fieldValue", 8)
+	var v interface{}
+	truthy := false
+	isBool := false
+	switch vi {
+	case 0:
+		v = nil
+	case 1:
+		v = float64(0)
+	case 2:
+		v, truthy = float64(1), true
+	case 3:
+		v, truthy = float64(7), true
+	case 4:
+		v, truthy, isBool = true, true, true
+	case 5:
+		v, isBool = false, true
+	case 6:
+		v = ""
+	case 7:
+		v, truthy = "ab", true
+	}
+	bangs := zz.Choose("bangs", 3)
+	op := zz.Choose("operator", 4) // && || == !=
+	lit := zz.Choose("literal", 2) == 1
+	fieldFirst := zz.Choose("fieldFirst", 2) == 1
+	named := zz.Choose("namedField", 2) == 1
+	ref := "$"
+	if named {
+		ref = "(F)$"
+	}
+	ref = "!!"[:bangs] + ref
+	litS := "false"
+	if lit {
+		litS = "true"
+	}
+	opS := []string{"&&", "||", "==", "!="}[op]
+	expr := ref + " " + opS + " " + litS
+	if !fieldFirst {
+		expr = litS + " " + opS + " " + ref
+	}
+	// value of the reference as an operand
+	refBool := truthy
+	if bangs == 1 {
+		refBool = !truthy
+	}
+	if op >= 2 {
+		// equality with a boolean literal is only typed when the operand is a boolean
+		zz.Assume(bangs > 0 || isBool)
+	}
+	var want bool
+	switch op {
+	case 0:
+		want = refBool && lit
+	case 1:
+		want = refBool || lit
+	case 2:
+		want = refBool == lit
+	case 3:
+		want = refBool != lit
+	}
+	t := &TagExpr{s: &structVM{fields: map[string]*fieldVM{
+		"F": {valueGetter: func(unsafe.Pointer) interface{} { return v }},
+	}}}
+	e, err := parseExpr(expr)
+	zz.Cover("reached-assert", true)
+	zz.Assert("parses", err == nil)
+	if err != nil {
+		return
+	}
+	got := e.run("F", t)
+	zz.Cover("nil-field", vi == 0)
+	zz.Assert("field-expression-follows-truthiness-rule", FakeBool(got) == want)
+	if bangs > 0 || op >= 2 {
+		_, isb := got.(bool)
+		zz.Assert("boolean-operators-yield-booleans", isb)
 	}
 }
